@@ -1126,3 +1126,22 @@ func optionNeutralCase(i int) *sem.Case {
 		docgen.Doc{V: full.Set("device", dev.Set(names[0], jsonx.Obj{})), Class: "type", Label: "ref-wrong-type"}, docgen.Doc{V: full.Set("fleet", []any{dev.Set(names[2], []any{jsonx.N(1)})}), Class: "type", Label: "item-wrong-type"})
 	return c
 }
+
+// quotedNameParityCase: property names that contain a backslash (which a struct tag cannot carry
+// as written: recorded finding name-breaks-tag, so the verdict against the model is that finding) with rules of their
+// own; relationally, JSON and YAML must still treat every document alike - same verdict, same decoded value.
+func quotedNameParityCase(i int) *sem.Case {
+	// (only names the unchanged generator can emit at all: a backslash followed by n, t or another backslash reads as
+	// an escape in the message strings; a quote or any other escape makes the file unparsable - C01's recorded finding)
+	names := [][2]string{{`domain\name`, `net\table`}, {`a\\b`, `x\ny`}, {`row\total`, `a\tb`}}[i%3]
+	obj := &sg.Schema{Types: []string{"object"}, Props: []sg.Prop{{Name: "plain", S: &sg.Schema{Types: []string{"string"}, MinLen: 1}},
+		{Name: names[0], S: &sg.Schema{Types: []string{"string"}, MinLen: 3, Pattern: "^[a-z]+$"}}, {Name: names[1], S: &sg.Schema{Types: []string{"integer"}, Min: sg.Fp(1)}}}, Required: []string{"plain"}}
+	if (i/3)%2 == 1 {
+		obj.Required = []string{"plain", names[0]}
+	}
+	c := &sem.Case{Root: obj, Sig: fmt.Sprintf("quoted-name-parity/%d", i%6), NoAuto: true, Witness: "name-breaks-tag", Args: []string{"--extra-imports"}}
+	full := jsonx.Obj{{K: "plain", V: "p"}, {K: names[0], V: "abc"}, {K: names[1], V: jsonx.N(2)}}
+	c.Docs = append(c.Docs, docgen.Doc{V: full, Class: "pinned", Label: "valid"}, docgen.Doc{V: full.Set(names[0], "ab"), Class: "pinned", Label: "too-short"}, docgen.Doc{V: full.Set(names[0], "ABC"), Class: "pinned", Label: "pattern"},
+		docgen.Doc{V: full.Set(names[1], jsonx.N(0)), Class: "pinned", Label: "minimum"}, docgen.Doc{V: full.Del(names[0]), Class: "pinned", Label: "absent"}, docgen.Doc{V: full.Set(names[1], "x"), Class: "pinned", Label: "wrong-type"})
+	return c
+}
